@@ -23,7 +23,7 @@ ENTRIES = ["take_step", "advance", "run_for", "get_parameter", "get_probabilitie
            "get_interval", "get_marginal", "mode", "save", "matrix_plot", "trace_plot", "plot_diagnostics"]
 FLOORS = {"key-agreement": 6, "reload-defined": 40, "save-defined": 5, "restored-value-flow": 4,
           "state-persisted": 7, "key-pairing": 6, "restored-type": 2,
-          "stack-roundtrip": 2, "derived-consistent": 5, "slot-reselected": 1, "reloaded-limit-hook": 3, "ctor-arg-roundtrip": 1, "rebuilt-object-roundtrip": 3, "load-forwards-arguments": 4, "adaptation-test-survives-reload": 2, "saved-key-restored": 7, "restore-target": 6, "restored-container": 6, "save-writes": 4}
+          "stack-roundtrip": 2, "derived-consistent": 5, "slot-reselected": 1, "reloaded-limit-hook": 3, "ctor-arg-roundtrip": 1, "rebuilt-object-roundtrip": 3, "load-forwards-arguments": 4, "adaptation-test-survives-reload": 2, "saved-key-restored": 7, "restore-target": 6, "restored-container": 6, "save-writes": 4, "state-unshared": 5}
 
 
 def load_context(prog, ci):
@@ -813,6 +813,70 @@ def _restored_containers(prog, ci, owner, lfn, var, archives, rel):
     return struct_ob("restored-container", owner, not bad, "; ".join(bad[:2]), rel, lfn.lineno, slots={"list_attributes_restored": n}, tier="E")
 
 
+def _state_unshared(prog, ci, owner, lfn, var, rel):
+    """No two attributes of one sampler share memory when the class updates one of them item by item: `load` (or any method)
+    binding `x.walkers = x.sample[-n:]` makes the per-walker stores of the next step write through into the stored history,
+    so samples already reported change after save / load / continue.  Views, slices, reshapes and the receiver's own methods
+    are followed (own._state_path); a copy, an arithmetic result or a fresh array ends the path."""
+    from ..own import _state_aliases, _state_path, LIST_MUTATORS
+    mro = prog.mro(ci)
+    methods = {}
+    for c in reversed(mro):
+        methods.update(c.methods)
+    # attributes the class updates in place, item by item (or through a mutating method / out=)
+    written = {}
+    for mname, fn in methods.items():
+        if not fn.args.args:
+            continue
+        me = fn.args.args[0].arg
+
+        def attr_of(e):
+            while isinstance(e, ast.Subscript):
+                e = e.value
+            if isinstance(e, ast.Attribute) and isinstance(e.value, ast.Name) and e.value.id == me:
+                return e.attr
+            return None
+        for st in ast.walk(fn):
+            tg = []
+            if isinstance(st, ast.Assign):
+                tg = [x for t in st.targets for x in (t.elts if isinstance(t, (ast.Tuple, ast.List)) else [t]) if isinstance(x, ast.Subscript)]
+            elif isinstance(st, ast.AugAssign) and isinstance(st.target, ast.Subscript):
+                tg = [st.target]
+            for t in tg:
+                a = attr_of(t)
+                if a:
+                    written.setdefault(a, (mname, st.lineno, ast.unparse(st)[:70]))
+            if isinstance(st, ast.Expr) and isinstance(st.value, ast.Call) and isinstance(st.value.func, ast.Attribute) \
+                    and st.value.func.attr in ("sort", "fill", "partition", "put", "resize"):
+                a = attr_of(st.value.func.value)
+                if a:
+                    written.setdefault(a, (mname, st.lineno, ast.unparse(st)[:70]))
+    bad, n = [], 0
+    sites = [(lfn, var)] + [(fn, fn.args.args[0].arg) for m, fn in methods.items()
+                            if fn is not lfn and fn.args.args and not any(U(d) in ("staticmethod", "classmethod") for d in fn.decorator_list)]
+    for fn, me in sites:
+        alias = _state_aliases(fn, {me: "self"}, {k: v for k, v in methods.items() if v is not fn})
+        for st in ast.walk(fn):
+            if not (isinstance(st, ast.Assign) and len(st.targets) == 1 and isinstance(st.targets[0], ast.Attribute)
+                    and isinstance(st.targets[0].value, ast.Name) and st.targets[0].value.id == me):
+                continue
+            x = st.targets[0].attr
+            n += 1
+            for p_ in sorted(_state_path(st.value, alias)):
+                parts = p_.split(".")
+                if len(parts) < 2 or parts[0] != "self":
+                    continue
+                y = parts[1].split("[")[0]
+                if y == x:
+                    continue
+                w = written.get(x) or written.get(y)
+                if w and len(parts) == 2 and not parts[1].endswith("[]"):
+                    bad.append(f"line {st.lineno}: `{U(st)[:90]}` makes {x} a view of the stored {y}, and {w[0]} (line {w[1]}: `{w[2]}`) updates "
+                               f"it item by item: the stores write through into {y}")
+    return struct_ob("state-unshared", owner, not bad, "; ".join(bad[:2]), rel, lfn.lineno,
+                     slots={"attribute_bindings": n, "item_updated": sorted(written)}, tier="E")
+
+
 def _restored_types(prog, ci, owner, lfn, var, rel):
     """`chain.a = int(D[k])` where the constructor gives `a` a float (a float literal, or a parameter whose default is one): the
     reloaded value is truncated."""
@@ -1214,6 +1278,7 @@ def run(prog, tier):
             obs.append(_restored_containers(prog, ci, qual(lc, lfn), lfn, var, {dn_} if dn_ else set(), rel))
             obs.append(_save_writes(qual(sc, sfn), sfn, rel))
             obs.append(_restored_types(prog, ci, qual(lc, lfn), lfn, var, rel))
+        obs.append(_state_unshared(prog, ci, qual(lc, lfn), lfn, var, rel))
         obs.append(_derived_consistent(prog, ci, cname, lfn, lc, call, var, rel))
         obs.extend(_ctor_arg_roundtrip(prog, ci, cname, lfn, call, values, rel))
         obs.extend(_rebuilt_object_roundtrip(prog, ci, cname, lfn, var, values, rel))
